@@ -26,7 +26,7 @@ MONITORS = ["c14"]
 def build_cases(ctx):
     n = ctx.budget(300, 6000)
     ng = (n * 2) // 5
-    cases = gwcheck.gen_cases(ctx, "c14", ng, mqtt_rate=0.15)
+    cases = scenarios_a.generic_cases(ctx, "c14", ng, mqtt_rate=0.15)
     for i, c in enumerate(cases):
         c["ops"] = scenarios_a.sprinkle_persistence(ctx.rng("c14s", i), c["ops"], 0.08, 0.03) + [("restart",)]
     for i in range(n - ng):
